@@ -160,6 +160,13 @@ def drive(rng, ntraces, nevents, maxparams):
       except ValueError:
         out = 'raise'
       ok = t.log(dict(ZERO, name=name, a=code, b=bit), out)
+    elif r < 0.31:
+      names = [j + 1 for j, p in enumerate(t.sig) if p['k'] in ('PK', 'KO')]
+      if not names:
+        continue
+      nme, bit, val = rng.choice(names), rng.choice([1, 2, 4, 3, 5]), rng.randint(1, 9)
+      setattr(t.cfg, pool.pname(nme), tagging.TaggedValue(tags=H.tags_of(bit), default=pool.LEAVES[val]))
+      ok = t.log(dict(ZERO, name='assigntv', a=nme, b=bit, vals=[val]), 'ok')
     elif r < 0.34:
       names = [j + 1 for j, p in enumerate(t.sig) if p['k'] in ('PK', 'KO')]
       if not names:
@@ -232,12 +239,20 @@ def copy_with_scenario():
   """copy_with: the original's history is untouched, the copy's ends with the new value."""
   out = []
   fn = pool.get_fn([{'k': 'PK', 'd': True}, {'k': 'KO', 'd': False}], 'function')
-  cfg = fdl.Config(fn, p1=pool.LEAVES[1])
+  import copy as _copy
+  cfg = fdl.Config(fn, p1=pool.LEAVES[1], p2=pool.LEAVES[3])
   before = {k: list(v) for k, v in cfg.__argument_history__.items()}
-  cp = copying.copy_with(cfg, p2=pool.LEAVES[2])
+  cp = copying.copy_with(cfg, p2=pool.LEAVES[2], p1=pool.LEAVES[4])
+  cp2 = _copy.copy(cfg)
+  cp2.p1 = pool.LEAVES[5]
+  del cp2.p2
   after = {k: list(v) for k, v in cfg.__argument_history__.items() if v}
   if after != {k: v for k, v in before.items() if v}:
-    out.append(({'clause': 'copy_with-touches-original-history'}, 'original history changed'))
+    out.append(({'clause': 'copy_with-touches-original-history'},
+                'editing a copy appended entries to the original\'s history'))
+  if cfg.__argument_history__['p1'][-1].new_value is not pool.LEAVES[1]:
+    out.append(({'clause': 'original-last-entry-not-current'},
+                'after editing a copy the original\'s history no longer ends with its current value'))
   h = cp.__argument_history__
   if not h['p2'] or h['p2'][-1].new_value is not pool.LEAVES[2] or \
       ('fiddle' + os.sep + '_src') in h['p2'][-1].location.filename:
